@@ -101,11 +101,22 @@ class FakeDCD:
 
     def __init__(self, xyz, lengths):
         self._xyz, self._lengths = xyz, lengths
+        self._pos = 0
         self.closed = False
 
-    def read(self):
-        ang = np.full((self._xyz.shape[0], 3), 90.0, dtype=np.float32)
-        return self._xyz, self._lengths, ang
+    def read(self, n_frames=None):
+        """Like the real reader: the frames from the current position on; the position moves."""
+        a = self._pos
+        b = len(self._xyz) if n_frames is None else min(len(self._xyz), a + n_frames)
+        self._pos = b
+        ang = np.full((b - a, 3), 90.0, dtype=np.float32)
+        return self._xyz[a:b], self._lengths[a:b], ang
+
+    def seek(self, frame):
+        self._pos = frame
+
+    def tell(self):
+        return self._pos
 
     def close(self):
         self.closed = True
@@ -276,6 +287,7 @@ class World(WorldBase):
             "buf": rng.choice(BUFS),
             "dumps": rng.sample(DUMPS, rng.randint(1, 3)),
             "maxn": rng.choice([3, 6, 12, 12, 40, 120]),     # two- and three-digit ids and counts now and then
+            "huge": rng.random() < float(os.environ.get("VERIF_C19_HUGE", "0.015")),   # one dump with >= 5000 atoms per frame
             "w_dump": rng.choice([1, 3, 5]),
             "w_hoomd": rng.choice([0, 1, 2]),
             "w_log": rng.choice([0, 1, 3]),
@@ -337,6 +349,9 @@ class World(WorldBase):
             names = rng.sample(EXTRA_NAMES, nextra)
             const_n = rng.random() < 0.6
             n = rng.randint(1, sw["maxn"])
+            if sw.get("huge") and not any(f["frames"] and f["frames"][0]["n"] >= 4000 for f in self.dumps.values()):
+                n = rng.randint(5000, 6500)           # sizes at which bulk / block code paths would switch on
+                const_n = rng.random() < 0.5
             K = rng.randint(1, 4)
             coord = rng.choice(["x", "x", "xu"])
             head = {"ndim": ndim, "names": names, "const_n": const_n, "K": K, "coord": coord,
@@ -344,8 +359,16 @@ class World(WorldBase):
         else:
             head = None
             n = d["frames"][0]["n"] if d["const_n"] else rng.randint(1, sw["maxn"])
+            if not d["const_n"] and d["frames"][0]["n"] >= 4000:
+                n = rng.randint(4100, 6500)
+            if len(d["frames"]) >= 2 and d["frames"][0]["n"] >= 4000:
+                return self.gen_read_vector(rng)     # two large frames are enough: read instead
         return {"op": "append", "path": path, "head": head, "n": n,
-                "timestep": rng.choice([0, rng.randrange(10 ** 3), rng.randrange(10 ** 9)]),
+                "timestep": rng.choice([0, rng.randrange(10 ** 3), rng.randrange(10 ** 9), 2 ** 53 + 1 + rng.randrange(10 ** 6),
+                                        2 ** 62 + rng.randrange(10 ** 9)]),
+                # how the caller holds the integers: plain ints, numpy integers (array elements, GSD steps)
+                "ints": rng.choice(["int", "int", "np.int64", "np.uint64"]),
+                "bounds_as": rng.choice(["ndarray", "ndarray", "list", "tuple"]),
                 "subseed": rng.randrange(1 << 40)}
 
     def gen_data_header(self, rng):
@@ -489,12 +512,15 @@ class World(WorldBase):
         order = rng.permutation(n)
         coordnames = ["x", "y", "z"][:ndim] if d["coord"] == "x" else ["xu", "yu", "zu"][:ndim]
         addson = " ".join(d["names"])
+        ity = {"int": int, "np.int64": np.int64, "np.uint64": np.uint64}[op.get("ints", "int")]
+        ts_arg, n_arg = ity(op["timestep"]), (ity(n) if ity is not np.uint64 else np.int32(n))
+        b_arg = {"ndarray": lambda b: b, "list": lambda b: b.tolist(), "tuple": lambda b: tuple(tuple(r) for r in b.tolist())}[op.get("bounds_as", "ndarray")](bounds)
         if d["names"]:
-            call = lambda: write_dump_header(op["timestep"], n, bounds, addson)   # noqa: E731
+            call = lambda: write_dump_header(ts_arg, n_arg, b_arg, addson)   # noqa: E731
         elif d["addson_none"]:
-            call = lambda: write_dump_header(op["timestep"], n, bounds)           # noqa: E731
+            call = lambda: write_dump_header(ts_arg, n_arg, b_arg)           # noqa: E731
         else:
-            call = lambda: write_dump_header(op["timestep"], n, bounds, "")       # noqa: E731
+            call = lambda: write_dump_header(ts_arg, n_arg, b_arg, "")       # noqa: E731
         header, exc, _ = self.call(call)
         if exc is not None:
             self.drop_last()
@@ -789,10 +815,17 @@ class World(WorldBase):
         pf = op.get("peer_fault")
         traj = FakeTrajectory(frames, (pf["fetch"], pf["exc"]) if pf else None)
         tag = "gsd-dcd" if op["dcd"] else "gsd"
+        dcd = None
+        failed_before = False
         for k in range(op.get("times", 1) + (1 if pf else 0)):
             # the client converts the same open trajectory again (k > 0): same answer expected
             if op["dcd"]:
-                dcd = FakeDCD(xyz, lengths)
+                if dcd is None or not failed_before:
+                    dcd = FakeDCD(xyz, lengths)       # after a completed conversion the DCD is reopened
+                else:
+                    # after a conversion that failed while fetching GSD frames the client simply
+                    # tries again with the objects it has
+                    self.ctx.probe("dcd_peer_object_reused_after_failed_conversion")
                 res, exc, _ = self.call(lambda: read_gsd_dcd(traj, dcd, ndim))
             else:
                 res, exc, _ = self.call(lambda: read_gsd(traj, ndim))
@@ -803,8 +836,10 @@ class World(WorldBase):
                     # not return something else than the whole trajectory); the next one is judged
                     self.ctx.faults_fired["peer_fetch_" + pf["exc"]] = self.ctx.faults_fired.get("peer_fetch_" + pf["exc"], 0) + 1
                     self.ctx.probe("conversion_failed_by_peer_fault")
+                    failed_before = True
                     continue
                 raise Violation(f"C19/{tag}-raised:hoomd", f"{exc[0]}: {exc[1]}")
+            failed_before = False
             self._judge_hoomd(res, pristine, xyz0, ndim, op["dcd"], tag)
             if k:
                 self.ctx.probe("hoomd_trajectory_converted_again")
